@@ -341,7 +341,54 @@ fn run() -> Result<(), String> {
     Ok(())
 }
 
+/// Child-process mode for the `deep` op: deserialize a `QueryCondition` nested `depth` levels
+/// (`Where(vec![Where(vec![…])])`) on a thread with an 8 MiB stack. A stack overflow aborts this
+/// process only; the parent reports it.
+fn deep_child(depth: usize) {
+    use agdb::AgdbSerialize;
+    use agdb::{QueryCondition, QueryConditionData, QueryConditionLogic, QueryConditionModifier};
+    let leaf = QueryCondition {
+        logic: QueryConditionLogic::And,
+        modifier: QueryConditionModifier::None,
+        data: QueryConditionData::Where(vec![]),
+    };
+    let one = QueryCondition {
+        logic: QueryConditionLogic::And,
+        modifier: QueryConditionModifier::None,
+        data: QueryConditionData::Where(vec![leaf.clone()]),
+    };
+    let b0 = leaf.serialize();
+    let b1 = one.serialize();
+    let prefix = b1[..b1.len() - b0.len()].to_vec();
+    let mut bytes = Vec::with_capacity(prefix.len() * depth + b0.len());
+    for _ in 0..depth {
+        bytes.extend_from_slice(&prefix);
+    }
+    bytes.extend_from_slice(&b0);
+    let h = std::thread::Builder::new()
+        .stack_size(8 << 20)
+        .spawn(move || {
+            let r = QueryCondition::deserialize(&bytes);
+            let out = match &r {
+                Ok(_) => "ok".to_string(),
+                Err(e) => format!("err:{:?}", e.ty),
+            };
+            std::mem::forget(r); // dropping a deeply nested value recurses as well
+            out
+        })
+        .expect("spawn");
+    match h.join() {
+        Ok(s) => println!("{s}"),
+        Err(_) => println!("panic:derive::deserialize"),
+    }
+}
+
 fn main() {
+    let argv: Vec<String> = std::env::args().collect();
+    if argv.len() == 3 && argv[1] == "deep-child" {
+        deep_child(argv[2].parse().unwrap_or(0));
+        return;
+    }
     if let Err(e) = run() {
         eprintln!("harness_codec: {e}");
         std::process::exit(1);
